@@ -23,15 +23,6 @@ namespace AioslskVerif.C08
 open AioslskVerif AioslskVerif.Transfer AioslskVerif.Entitle
 open AioslskVerif.Generated.Entitle
 
-/-- `u` is entitled to the remote path `p`: it is exactly the remote path of an indexed item whose
-shared directory is not locked for `u`. -/
-def Entitled (c : Cfg) (sh : Shares.St Comp) (u : Name) (p : List Ch) : Prop :=
-  ∃ it ∈ sh.items, remotePath c it = p ∧ locked c it.sd u = false
-
-/-- no two indexed items have the same remote path (no alias collision) -/
-def UniquePaths (c : Cfg) (sh : Shares.St Comp) : Prop :=
-  ∀ a ∈ sh.items, ∀ b ∈ sh.items, remotePath c a = remotePath c b → a = b
-
 /-! ## What the regenerated constants must say -/
 
 /-- Every gate tests the blocking flag the property names (uploads: 32 at the two request handlers
@@ -173,122 +164,6 @@ theorem C08_no_reply_to_blocked (K : Query.Cls Ch) (c : Cfg) (sh : Shares.St Com
 
 /-! ## (3) admission of uploads -/
 
-theorem applyMeth_key (m : Meth) (r : Option Reason) (x : Xfer) :
-    (applyMeth m r x).1.user = x.user ∧ (applyMeth m r x).1.path = x.path := by
-  simp [applyMeth, Xfer.withSR]
-
-theorem entitled_of_findShared {c : Cfg} {sh : Shares.St Comp} {u : Name} {p : List Ch} {it : SItem}
-    (h : findShared c sh u p = some it) : Entitled c sh u p :=
-  ⟨it, (findShared_some c sh u p it h).1, (findShared_some c sh u p it h).2.1, (findShared_some c sh u p it h).2.2⟩
-
-/-- what both entry points guarantee about their result `r` -/
-def AdmitSound (c : Cfg) (sh : Shares.St Comp) (xs : List Xfer) (u : Name) (p : List Ch) (r : List Xfer × Option FailR) : Prop :=
-  -- an upload that is QUEUED afterwards and was not there as such before: the user is not blocked
-  -- for uploads and is entitled to exactly the requested path; it is an upload of that path to that user
-  (∀ x' ∈ r.1, x' ∉ xs → x'.state = .queued →
-      isBlocked c u 32 = false ∧ Entitled c sh u p ∧ x'.user = u ∧ x'.path = p) ∧
-  -- an upload object is created only under the same condition; none is ever dropped
-  (xs.length < r.1.length → isBlocked c u 32 = false ∧ Entitled c sh u p) ∧ xs.length ≤ r.1.length ∧
-  -- a blocked or not entitled user is told "File not shared."
-  ((isBlocked c u 32 = true ∨ ¬ Entitled c sh u p) → r.2 = some .notShared)
-
-theorem admit_refused (c : Cfg) (sh : Shares.St Comp) (xs : List Xfer) (u : Name) (p : List Ch) :
-    AdmitSound c sh xs u p (xs, some .notShared) :=
-  ⟨fun _ h hn => absurd h hn, fun h => absurd h (Nat.lt_irrefl _), Nat.le_refl _, fun _ => rfl⟩
-
-theorem admit_unchanged (c : Cfg) (sh : Shares.St Comp) (xs : List Xfer) (u : Name) (p : List Ch) (r : Option FailR)
-    (hb : isBlocked c u 32 = false) (hE : Entitled c sh u p) : AdmitSound c sh xs u p (xs, r) :=
-  ⟨fun _ h hn => absurd h hn, fun h => absurd h (Nat.lt_irrefl _), Nat.le_refl _, fun h => by
-    rcases h with h | h
-    · rw [hb] at h; cases h
-    · exact absurd hE h⟩
-
-theorem admit_new (c : Cfg) (sh : Shares.St Comp) (xs : List Xfer) (u : Name) (p : List Ch) (r : Option FailR)
-    (hb : isBlocked c u 32 = false) (hE : Entitled c sh u p) : AdmitSound c sh xs u p (xs ++ [newUpload u p], r) := by
-  refine ⟨?_, fun _ => ⟨hb, hE⟩, by simp, ?_⟩
-  · intro x' hx' hn _
-    simp only [List.mem_append, List.mem_singleton] at hx'
-    rcases hx' with hx' | rfl
-    · exact absurd hx' hn
-    · exact ⟨hb, hE, rfl, rfl⟩
-  · rintro (h | h)
-    · rw [hb] at h; cases h
-    · exact absurd hE h
-
-theorem admit_failed (c : Cfg) (sh : Shares.St Comp) (xs : List Xfer) (u : Name) (p : List Ch) (y : Xfer)
-    (hfind : xs.find? (sameKey u p) = some y) :
-    AdmitSound c sh xs u p (updFirst (sameKey u p) (fun y => (applyMeth .fail none y).1) xs, some .notShared) := by
-  have hymem : y ∈ xs := List.mem_of_find?_eq_some hfind
-  refine ⟨?_, by simp [length_updFirst], by simp [length_updFirst], fun _ => rfl⟩
-  intro x' hx' hn hst
-  rcases mem_updFirst _ _ _ _ hx' with h | ⟨z, hz, rfl⟩
-  · exact absurd h hn
-  · rw [hfind] at hz
-    cases hz
-    rw [fail_not_queued none y hst] at hn
-    exact absurd hymem hn
-
-theorem admit_requeued (c : Cfg) (sh : Shares.St Comp) (xs : List Xfer) (u : Name) (p : List Ch) (y : Xfer)
-    (hfind : xs.find? (sameKey u p) = some y) (hb : isBlocked c u 32 = false) (hE : Entitled c sh u p) :
-    AdmitSound c sh xs u p (updFirst (sameKey u p) (fun y => (applyMeth .queue none y).1) xs, none) := by
-  have hy : sameKey u p y = true := by simpa using List.find?_some hfind
-  refine ⟨?_, by simp [length_updFirst], by simp [length_updFirst], ?_⟩
-  · intro x' hx' hn _
-    rcases mem_updFirst _ _ _ _ hx' with h | ⟨z, hz, rfl⟩
-    · exact absurd h hn
-    · rw [hfind] at hz
-      cases hz
-      simp only [sameKey, Bool.and_eq_true, decide_eq_true_eq] at hy
-      exact ⟨hb, hE, (applyMeth_key _ _ y).1.trans hy.1, (applyMeth_key _ _ y).2.trans hy.2⟩
-  · rintro (h | h)
-    · rw [hb] at h; cases h
-    · exact absurd hE h
-
-theorem onQueue_sound (c : Cfg) (sh : Shares.St Comp) (xs : List Xfer) (u : Name) (p : List Ch) :
-    AdmitSound c sh xs u p (onQueue c sh xs u p) := by
-  have hq : queueFlag = 32 := rfl
-  have hr : queueBlockedReason = .notShared := rfl
-  simp only [onQueue, hq, hr]
-  cases hb : isBlocked c u 32 with
-  | true => exact admit_refused c sh xs u p
-  | false =>
-    simp only [Bool.false_eq_true, if_false]
-    cases hfind : xs.find? (sameKey u p) with
-    | none =>
-      cases hsh : findShared c sh u p with
-      | none => exact admit_refused c sh xs u p
-      | some it => exact admit_new c sh xs u p _ hb (entitled_of_findShared hsh)
-    | some y =>
-      cases hsh : findShared c sh u p with
-      | none => exact admit_failed c sh xs u p y hfind
-      | some it =>
-        have hE := entitled_of_findShared hsh
-        simp only
-        split
-        · exact admit_unchanged c sh xs u p _ hb hE
-        · split
-          · exact admit_requeued c sh xs u p y hfind hb hE
-          · exact admit_unchanged c sh xs u p _ hb hE
-
-theorem onRequest_sound (c : Cfg) (sh : Shares.St Comp) (xs : List Xfer) (u : Name) (p : List Ch) :
-    AdmitSound c sh xs u p (onRequest c sh xs u p) := by
-  have hq : requestFlag = 32 := rfl
-  have hr : requestBlockedReason = .notShared := rfl
-  simp only [onRequest, hq, hr]
-  cases hb : isBlocked c u 32 with
-  | true => exact admit_refused c sh xs u p
-  | false =>
-    simp only [Bool.false_eq_true, if_false]
-    cases hfind : xs.find? (sameKey u p) with
-    | none =>
-      cases hsh : findShared c sh u p with
-      | none => exact admit_refused c sh xs u p
-      | some it => exact admit_new c sh xs u p _ hb (entitled_of_findShared hsh)
-    | some y =>
-      cases hsh : findShared c sh u p with
-      | none => exact admit_failed c sh xs u p y hfind
-      | some it => exact admit_unchanged c sh xs u p _ hb (entitled_of_findShared hsh)
-
 /-- **Admission is sound at both entry points** (`PeerTransferQueue`, `PeerTransferRequest`), for
 every configuration, index, list of uploads, user and requested string (so: case variants, doubled
 or trailing separators, paths through a parent's alias, unknown names — anything that is not
@@ -308,13 +183,8 @@ theorem C08_reconcile_table (b n : Bool) (st : St) (r : Option Reason)
     (r ≠ some .requested → b = true → reconcileSR b n (st, r) = (.aborted, some .blocked)) ∧
     (r ≠ some .requested → b = false → n = true → reconcileSR b n (st, r) = (.aborted, some .notShared)) ∧
     (r ≠ some .requested → b = false → n = false → st = .aborted → reconcileSR b n (st, r) = (.queued, none)) ∧
-    (r ≠ some .requested → b = false → n = false → st ≠ .aborted → reconcileSR b n (st, r) = (st, r)) := by
-  cases b <;> cases n <;> cases st <;> rcases r with _ | r <;> (try cases r) <;>
-    first
-    | exact absurd rfl h1
-    | exact absurd rfl h2
-    | exact absurd rfl h3
-    | (refine ⟨?_, ?_, ?_, ?_, ?_⟩ <;> intros <;> first | contradiction | decide)
+    (r ≠ some .requested → b = false → n = false → st ≠ .aborted → reconcileSR b n (st, r) = (st, r)) :=
+  reconcileSR_table b n st r h1 h2 h3
 
 /-- COMPLETE and FAILED uploads are left alone. -/
 theorem C08_reconcile_finished (b n : Bool) (x : Xfer) (h : x.state = .complete ∨ x.state = .failed) :
@@ -323,73 +193,6 @@ theorem C08_reconcile_finished (b n : Bool) (x : Xfer) (h : x.state = .complete 
   | mk u p st r =>
     simp only at h
     rcases h with rfl | rfl <;> rfl
-
-theorem findShared_isNone_iff (c : Cfg) (sh : Shares.St Comp) (hU : UniquePaths c sh) (u : Name) (p : List Ch) :
-    (findShared c sh u p).isNone = true ↔ ¬ Entitled c sh u p := by
-  constructor
-  · intro h hE
-    obtain ⟨it, hit, hp, hl⟩ := hE
-    simp only [findShared] at h
-    cases hf : sh.items.find? (fun it => remotePath c it = p) with
-    | none =>
-      have := List.find?_eq_none.1 hf it hit
-      simp [hp] at this
-    | some it' =>
-      have h1 : it' ∈ sh.items := List.mem_of_find?_eq_some hf
-      have h2 : remotePath c it' = p := by simpa using List.find?_some hf
-      have : it' = it := hU it' h1 it hit (h2.trans hp.symm)
-      subst this
-      simp [hf, hl] at h
-  · intro h
-    cases hf : findShared c sh u p with
-    | none => rfl
-    | some it => exact absurd (entitled_of_findShared hf) h
-
-/-- what the property demands of one upload across a settled management cycle -/
-def Reconciled (c : Cfg) (sh : Shares.St Comp) (x x' : Xfer) : Prop :=
-  x'.user = x.user ∧ x'.path = x.path ∧
-  -- aborted on the user's request: stays
-  (x.state = .aborted → x.reason = some .requested → x' = x) ∧
-  (x.reason ≠ some .requested →
-    -- no longer permitted: ABORTED with the matching reason, Blocked first
-    (isBlocked c x.user 32 = true → x'.state = .aborted ∧ x'.reason = some .blocked) ∧
-    (isBlocked c x.user 32 = false → ¬ Entitled c sh x.user x.path →
-        x'.state = .aborted ∧ x'.reason = some .notShared) ∧
-    -- permitted: queued again if it was aborted (only for such a reason), else untouched
-    (isBlocked c x.user 32 = false → Entitled c sh x.user x.path → x.state = .aborted →
-        x'.state = .queued ∧ x'.reason = none) ∧
-    (isBlocked c x.user 32 = false → Entitled c sh x.user x.path → x.state ≠ .aborted → x' = x))
-
-theorem reconcile1_spec (c : Cfg) (sh : Shares.St Comp) (hU : UniquePaths c sh) (x : Xfer)
-    (h1 : x.state ≠ .complete) (h2 : x.state ≠ .failed) (h3 : x.state ≠ .virgin) :
-    Reconciled c sh x (reconcile1 c sh x) := by
-  have he : evalFlag = 32 := rfl
-  obtain ⟨t1, t2, t3, t4, t5⟩ := C08_reconcile_table (userBlocked c x) (fileNotShared c sh x) x.state x.reason h1 h2 h3
-  have hn := findShared_isNone_iff c sh hU x.user x.path
-  cases x with
-  | mk u p st r =>
-    simp only [reconcile1, reconcileX, Xfer.sr, Xfer.withSR, userBlocked, fileNotShared, he] at *
-    refine ⟨rfl, rfl, ?_, ?_⟩
-    · intro ha hr
-      rw [t1 hr ha]
-    · intro hr
-      refine ⟨?_, ?_, ?_, ?_⟩
-      · intro hb
-        rw [t2 hr hb]; exact ⟨rfl, rfl⟩
-      · intro hb hE
-        rw [t3 hr hb (hn.2 hE)]; exact ⟨rfl, rfl⟩
-      · intro hb hE ha
-        have : (findShared c sh u p).isNone = false := by
-          cases hh : (findShared c sh u p).isNone with
-          | false => rfl
-          | true => exact absurd hE (hn.1 hh)
-        rw [t4 hr hb this ha]; exact ⟨rfl, rfl⟩
-      · intro hb hE ha
-        have : (findShared c sh u p).isNone = false := by
-          cases hh : (findShared c sh u p).isNone with
-          | false => rfl
-          | true => exact absurd hE (hn.1 hh)
-        rw [t5 hr hb this ha]
 
 /-- **Post-condition of a management cycle that runs with the shares-changed flag**, lifted from
 the table to any list of uploads in any configuration: the uploads keep their places, and every one
@@ -408,123 +211,6 @@ theorem C08_cycle_idle (s : S) (hflag : s.sharesChanged = false) : (step s .cycl
   simp [step, hflag]
 
 /-! ## Uploads aborted on the user's request stay aborted -/
-
-/-- ops by which the user himself takes upload `k` out of ABORTED -/
-def Op.requeues (k : Nat) : Op → Bool
-  | .userQueue k' => k' = k
-  | .meth k' m => k' = k && m = .queue
-  | _ => false
-
-theorem sticky_updFirst (p : Xfer → Bool) (f : Xfer → Xfer) (xs : List Xfer) (k : Nat) (x : Xfer)
-    (hk : xs[k]? = some x) (hf : f x = x ∨ ∀ y, xs.find? p = some y → y ≠ x) :
-    (updFirst p f xs)[k]? = some x := by
-  rcases updFirst_getElem? p f xs k x hk with h | ⟨h1, h2⟩
-  · exact h
-  · rcases hf with hf | hf
-    · rw [h2, hf]
-    · exact absurd rfl (hf x h1)
-
-theorem sticky_step (s : S) (op : Op) (k : Nat) (x : Xfer) (hk : s.xs[k]? = some x)
-    (ha : x.state = .aborted) (hr : x.reason = some .requested) (hop : Op.requeues k op = false) :
-    (step s op).1.xs[k]? = some x := by
-  have hfail : (applyMeth .fail none x).1 = x := by rw [applyMeth_aborted .fail (by decide) none x ha]
-  cases op with
-  | queueReq u p =>
-    simp only [step, onQueue]
-    split
-    · exact hk
-    · split
-      · split
-        · exact hk
-        · rw [List.getElem?_append_left (by
-            have := List.getElem?_eq_some_iff.1 hk; exact this.1)]
-          exact hk
-      · rename_i y hfind
-        split
-        · exact sticky_updFirst _ _ _ _ _ hk (Or.inl hfail)
-        · split
-          · exact hk
-          · split
-            · rename_i hst
-              refine sticky_updFirst _ _ _ _ _ hk (Or.inr ?_)
-              intro z hz hzx
-              rw [hfind] at hz
-              cases hz
-              subst hzx
-              rw [ha] at hst
-              revert hst
-              decide
-            · exact hk
-  | xferReq u p =>
-    simp only [step, onRequest]
-    split
-    · exact hk
-    · split
-      · split
-        · exact hk
-        · rw [List.getElem?_append_left (by
-            have := List.getElem?_eq_some_iff.1 hk; exact this.1)]
-          exact hk
-      · split
-        · exact sticky_updFirst _ _ _ _ _ hk (Or.inl hfail)
-        · exact hk
-  | cycle =>
-    simp only [step]
-    split
-    · simp only [reconcile, List.getElem?_map, hk, Option.map_some, Option.some.injEq]
-      cases x with
-      | mk u p st r =>
-        simp only at ha hr
-        subst ha hr
-        simp only [reconcile1, reconcileX, Xfer.sr, Xfer.withSR]
-        have := (C08_reconcile_table (userBlocked s.cfg ⟨u, p, .aborted, some .requested⟩)
-          (fileNotShared s.cfg s.sh ⟨u, p, .aborted, some .requested⟩) .aborted (some .requested)
-          (by decide) (by decide) (by decide)).1 rfl rfl
-        rw [this]
-    · exact hk
-  | meth k' m =>
-    simp only [step, modifyAt]
-    split
-    · exact hk
-    · rename_i y hy
-      by_cases hkk : k' = k
-      · subst hkk
-        rw [hk] at hy
-        cases hy
-        have hm : m ≠ .queue := by
-          intro hm
-          simp [Op.requeues, hm] at hop
-        rw [applyMeth_aborted m hm none x ha]
-        have hlt : k' < s.xs.length := (List.getElem?_eq_some_iff.1 hk).1
-        simp [hlt]
-      · simp only [List.getElem?_set]
-        simp [hkk, hk]
-  | userAbort k' =>
-    simp only [step, modifyAt]
-    split
-    · exact hk
-    · rename_i y hy
-      by_cases hkk : k' = k
-      · subst hkk
-        rw [hk] at hy
-        cases hy
-        rw [applyMeth_aborted .abort (by decide) _ x ha]
-        have hlt : k' < s.xs.length := (List.getElem?_eq_some_iff.1 hk).1
-        simp [hlt]
-      · simp only [List.getElem?_set]
-        simp [hkk, hk]
-  | userQueue k' =>
-    simp only [step, modifyAt]
-    split
-    · exact hk
-    · by_cases hkk : k' = k
-      · simp [Op.requeues, hkk] at hop
-      · simp only [List.getElem?_set]
-        simp [hkk, hk]
-  | share d disk => simp only [step]; split <;> exact hk
-  | unshare p => simp only [step]; split <;> exact hk
-  | setMode p m => simp only [step]; split <;> exact hk
-  | _ => exact hk
 
 /-- **Requested is sticky**: whatever the peers request and however often the friends list, the
 block list and the shared directories change and the management cycle runs, an upload aborted on
@@ -615,6 +301,7 @@ example : onQueue (run s0 (setup.take 5)).cfg (run s0 (setup.take 5)).sh (run s0
 example : (onQueue (run s0 setup).cfg (run s0 setup).sh [] 1 [64, 64, 0, 92, 1, 3, 4, 2]) = ([], some .notShared) := by decide
 /-- the index of the example has unique remote paths -/
 example : ((run s0 setup).sh.items.map (remotePath (run s0 setup).cfg)).Nodup := by decide
+example : UniquePaths (run s0 setup).cfg (run s0 setup).sh := by unfold UniquePaths; decide
 /-- un-friending user 1 and blocking user 2 for uploads: after the cycle both are ABORTED, with
 "File not shared" and "Blocked"; undoing both queues them again; a user abort in between stays -/
 example : (run s0 (setup ++ [.setFriends [], .setBlocked [(2, 32)], .cycle])).xs =
